@@ -55,7 +55,7 @@ EXTENDS Integers, FiniteSets, TLC
 
 CONSTANTS Traces,      \* trace ids (strings)
           MaxFrag,     \* fragments per trace
-          MaxParts,    \* parts ever written
+          MaxParts,    \* part ids ever handed out to a write (bounds writes and merge outputs together)
           MaxBatch,    \* traces per write batch
           Times,       \* data timestamps (integers)
           SegSplit,    \* ts < SegSplit -> table "X" (coverage 0..SegSplit-1), else "Y"
